@@ -148,6 +148,18 @@ PoolC03a(tests, maxN) ==
     UNION {ChildPosForms(nt, <<p>>) : nt \in tests, p \in PosAtoms(maxN)}
 PoolC03b(tests, maxN, B) ==
     UNION {ChildPosForms(nt, <<p, b>>) : nt \in tests, p \in PosAtoms(maxN), b \in B}
+\* a positional child step CONTINUED by a step on any axis, by '//', or by another positional child step;
+\* also below '//' and below another step
+ContPos == {N(1), N(2), LastFn, Bin("=", PosFn, N(2)), Bin("<", PosFn, LastFn), Bin("=", PosFn, Bin("-", LastFn, N(1)))}
+PoolC03cont(contAxes) ==
+    UNION { LET st == Step("child", nt, <<p>>) IN
+            {Path(FALSE, <<st, Step(cax, cnt, <<>>)>>) : cax \in contAxes, cnt \in TestsA}
+            \cup {Path(TRUE, <<DosNode, st, Step(cax, NTAny, <<>>)>>) : cax \in contAxes}
+            \cup {Path(FALSE, <<Step("child", NTAny, <<>>), st, Step(cax, NTAny, <<>>)>>) : cax \in contAxes}
+            \cup {Path(FALSE, <<st, DosNode, Step("child", cnt, <<>>)>>) : cnt \in TestsA}
+            \cup {Path(FALSE, <<st, Step("child", NTAny, <<q>>)>>) : q \in ContPos}
+            \cup {Path(TRUE, <<DosNode, st, Step("child", NTAny, <<q>>)>>) : q \in ContPos}
+          : nt \in TestsA, p \in ContPos }
 \* (flat path)[n]  and  (//name)[n]
 PoolC03paren(paths, maxN) == {Filter(pa, <<N(n)>>, <<>>) : pa \in paths, n \in 1 .. maxN}
 
